@@ -11,7 +11,19 @@ Cases are groups started by a `reset` op; the record lives until the next `reset
         via=mem: a header copy — through the consumer-side hook; the record is then the consumed one
   set <k> <v> | get <k> | keys                     carrier operations on the record (hex tokens)
 
+  reset B <codec> <sizes> <skip> <recs>             a partition response of v2 batches holding the records
+        <recs> = <hdrs>/<hdrs>/… (batch sizes <sizes> = n or n+m), decoded by the real fetch decoder from
+        offset <skip>; the batch is then the decoded records (every record an independent header list)
+  reset R <order> <idseed> <samp> <recs>            plain producer -> kfake -> kotel bridge that polls and
+        re-produces the polled records in <order> -> kotel sink; the batch is then the sink's records
+  bset <i> <k> <v> | bget <i> <k> | bkeys <i>      carrier operations on record i of the batch
+  binj <i> <tid> <sid> <flags> <ts>                 the producer-side hook on fetched record i
+  bext                                             the consumer-side hook's extraction on every injected record
+
   <hdrs> = `~` or `k:v,k:v…`, k hex or `.` (empty), v hex, `.` (empty) or `-` (nil)
+  batch output:  B=<hdrs>/… K=<keys>/… G=<gets>/… R=<Get of the op's key on record i, else .>
+                 reset R adds I=<tp>+<ts>/… (injected per record: an INPUT of the model, copied) and
+                 X=<tp>+<ts>/… (extracted per record); bext adds X= (`-` for a record never injected)
   impl / model output:  H=<hdrs> K=<keys> G=<Get of each header's key> R=<Get of the op's key, else .>
                         and for reset E:  X=<extracted traceparent, hex> T=<extracted tracestate, hex>
 
@@ -22,6 +34,9 @@ open Driver Model.C37
 structure St where
   h : List Hdr := []              -- model record
   prev : Option Obs := none       -- implementation's last observation
+  b : Batch := []                 -- model batch (fetched records)
+  bprev : Option (List Obs) := none   -- implementation's last observation of the batch
+  inj : List (Option (Bytes × Bytes × Bool)) := []  -- per record: last injected traceparent, tracestate, Spec applicable
 
 def fmtB (b : Bytes) : String := toHex b
 
@@ -60,11 +75,163 @@ def verdictStr (ok : Bool) (key : String) : String := if ok then "1" else "0:" +
 
 def hasKey (h : List Hdr) (k : Bytes) : Bool := h.any (·.key == k)
 
+/-! ### batches -/
+
+def splitSlash (s : String) : List String := s.splitOn "/"
+
+def fmtBatchObs (os : List Obs) (r : Option Bytes) : String :=
+  let j (f : Obs → String) := "/".intercalate (os.map f)
+  s!"B={j (fun o => fmtList (o.hdrs.map fmtHdr))} K={j (fun o => fmtList (o.keys.map fmtB))} G={j (fun o => fmtList (o.gets.map fmtB))} R={match r with | some x => fmtB x | none => "."}"
+
+def zip3 : List (List Hdr) → List (List Bytes) → List (List Bytes) → Option (List Obs)
+  | [], [], [] => some []
+  | h :: hs, k :: ks, g :: gs => (zip3 hs ks gs).map (fun r => ⟨h, k, g, []⟩ :: r)
+  | _, _, _ => none
+
+def parseBatchObs (ts : List String) : Option (List Obs × Bytes) := do
+  let h ← (splitSlash (← field "B=" ts)).mapM (parseList parseHdr)
+  let k ← (splitSlash (← field "K=" ts)).mapM (parseList parseHex?)
+  let g ← (splitSlash (← field "G=" ts)).mapM (parseList parseHex?)
+  let r ← (← field "R=" ts) |> parseHex?
+  let os ← zip3 h k g
+  pure (os, r)
+
+def parseCtx (s : String) : Option (Bytes × Bytes) :=
+  match s.splitOn "+" with
+  | [a, b] => do pure (← parseHex? a, ← parseHex? b)
+  | _ => none
+
+def fmtCtx (c : Bytes × Bytes) : String := fmtB c.1 ++ "+" ++ fmtB c.2
+
+def parseCtxs (pfx : String) (ts : List String) : Option (List (Option (Bytes × Bytes))) := do
+  (splitSlash (← field pfx ts)).mapM fun s => if s = "-" then some none else (parseCtx s).map some
+
+def headerBearing (b : Batch) : Nat := (b.filter (fun h => !h.isEmpty)).length
+
+def setAt {α : Type} (l : List α) (i : Nat) (x : α) : List α := l.set i x
+
+/-- all records unchanged between two batch observations -/
+def sameBatch (P N : List Obs) : Bool := N == P
+
+/-- per record: X must equal what was injected, where the Spec applies -/
+def propagateAll : List (Option (Bytes × Bytes × Bool)) → List (Option (Bytes × Bytes)) → Bool
+  | [], [] => true
+  | none :: is, _ :: xs => propagateAll is xs
+  | some (_, _, false) :: is, _ :: xs => propagateAll is xs
+  | some (tp, ts, true) :: is, some (x, t) :: xs => specPropagate tp ts x t && propagateAll is xs
+  | _, _ => false
+
+def forwardAll : List (List Hdr) → List Obs → Bool
+  | [], [] => true
+  | h :: hs, n :: ns => specForward h n.hdrs && specKeys n && forwardAll hs ns
+  | _, _ => false
+
+def batchStep (st : St) (op : List String) (its : List String) : Option (St × String) :=
+  let ib := parseBatchObs its
+  let nt := boolStr (headerBearing st.b ≥ 2)
+  match op with
+  | ["reset", "B", _codec, _sizes, skip, recs] =>
+    match (splitSlash recs).mapM (parseList parseHdr), skip.toNat? with
+    | some all, some sk =>
+      let b := all.drop sk
+      let m := fmtBatchObs (bobs b) none
+      let v := match ib with
+        | some (n, _) => verdictStr (n.map Obs.hdrs == b && n.all specKeys) "fetched-headers-differ-from-produced"
+        | none => "0:no-observation"
+      some ({ st with b := b, bprev := ib.map (·.1), inj := b.map (fun _ => none) }, s!"{m} | {v} | {boolStr (headerBearing b ≥ 2)}")
+    | _, _ => none
+  | ["reset", "R", _order, _seed, _samp, recs] =>
+    match (splitSlash recs).mapM (parseList parseHdr) with
+    | some orig =>
+      -- what the bridge's producer-side hook injected is read off the implementation (span ids are the SDK's
+      -- business); everything downstream of it is predicted
+      match parseCtxs "I=" its, parseCtxs "X=" its, ib with
+      | some is, some xs, some (n, _) =>
+        if is.length != orig.length || is.any (fun c => match c with | some (tp, _) => tp.isEmpty | none => true) then
+          some (st, "no-injection | 0:no-injection | 1")
+        else
+          let ctxs := is.map (fun c => c.getD ([], []))
+          let b := List.zipWith (fun h c => inject h c.1 c.2) orig ctxs
+          let inj := List.zipWith (fun h c => some (c.1, c.2, c.2 != [] || !hasKey h tracestateKey)) orig ctxs
+          let m := fmtBatchObs (bobs b) none ++ " I=" ++ "/".intercalate (ctxs.map fmtCtx) ++ " X=" ++ "/".intercalate (b.map (fun h => fmtCtx (extract h)))
+          let v :=
+            if !propagateAll inj xs then "0:extracted-context-differs-from-injected"
+            else if !forwardAll orig n then "0:application-headers-changed"
+            else "1"
+          some ({ st with b := b, bprev := some n, inj := inj }, s!"{m} | {v} | 1")
+      | _, _, _ => some (st, "no-observation | 0:no-observation | 1")
+    | none => none
+  | ["bset", i, k, v] =>
+    match i.toNat?, parseHex? k, parseHex? v with
+    | some i, some kb, some vb =>
+      if i ≥ st.b.length then none else
+      let b' := bset st.b i kb vb
+      let m := fmtBatchObs (bobs b') (some (cget (b'[i]?.getD []) kb))
+      let vd := match st.bprev, ib with
+        | some p, some (n, r) =>
+          if !othersUntouched i p n then "0:set-changed-another-records-headers"
+          else verdictStr (specBSet p i kb vb n r) "set"
+        | _, _ => "0:no-observation"
+      some ({ st with b := b', bprev := ib.map (·.1) }, s!"{m} | {vd} | {nt}")
+    | _, _, _ => none
+  | ["bget", i, k] =>
+    match i.toNat?, parseHex? k with
+    | some i, some kb =>
+      if i ≥ st.b.length then none else
+      let m := fmtBatchObs (bobs st.b) (some (cget (st.b[i]?.getD []) kb))
+      let vd := match st.bprev, ib with
+        | some p, some (n, r) =>
+          if !sameBatch p n then "0:read-changed-headers" else verdictStr (specBRead p i kb n r) "get"
+        | _, _ => "0:no-observation"
+      some ({ st with bprev := ib.map (·.1) }, s!"{m} | {vd} | {nt}")
+    | _, _ => none
+  | ["bkeys", i] =>
+    match i.toNat? with
+    | some i =>
+      if i ≥ st.b.length then none else
+      let m := fmtBatchObs (bobs st.b) none
+      let vd := match st.bprev, ib with
+        | some p, some (n, _) =>
+          if !sameBatch p n then "0:read-changed-headers" else verdictStr (n.all specKeys) "keys"
+        | _, _ => "0:no-observation"
+      some ({ st with bprev := ib.map (·.1) }, s!"{m} | {vd} | {nt}")
+    | none => none
+  | ["binj", i, tid, sid, fl, ts] =>
+    match i.toNat?, parseHex? ts with
+    | some i, some tsb =>
+      if i ≥ st.b.length then none else
+      let tp := ascii ("00-" ++ tid ++ "-" ++ sid ++ "-" ++ fl)
+      let b' := binj st.b i tp tsb
+      let m := fmtBatchObs (bobs b') (some (cget (b'[i]?.getD []) traceparentKey))
+      let before := match st.bprev with | some p => (p[i]?.map Obs.hdrs).getD [] | none => st.b[i]?.getD []
+      let applicable := tsb != [] || !hasKey before tracestateKey
+      let vd := match st.bprev, ib with
+        | some p, some (n, r) =>
+          if !othersUntouched i p n then "0:set-changed-another-records-headers"
+          else verdictStr (specBInj p i tp n r) "inject"
+        | _, _ => "0:no-observation"
+      some ({ st with b := b', bprev := ib.map (·.1), inj := setAt st.inj i (some (tp, tsb, applicable)) },
+        s!"{m} | {vd} | {boolStr (st.b.length ≥ 2)}")
+    | _, _ => none
+  | ["bext"] =>
+    let xs := List.zipWith (fun h c => match c with | some _ => fmtCtx (extract h) | none => "-") st.b st.inj
+    let m := fmtBatchObs (bobs st.b) none ++ " X=" ++ "/".intercalate xs
+    let vd := match st.bprev, ib, parseCtxs "X=" its with
+      | some p, some (n, _), some x =>
+        if !sameBatch p n then "0:read-changed-headers"
+        else verdictStr (propagateAll st.inj x) "extracted-context-differs-from-injected"
+      | _, _, _ => "0:no-observation"
+    some ({ st with bprev := ib.map (·.1) }, s!"{m} | {vd} | {boolStr (st.b.length ≥ 2)}")
+  | _ => none
+
 def step (st : St) (line : String) : St × String :=
   let (op, impl) := splitBar line
   let its := toks impl
   let iobs := parseObs its
   let bad : St × String := (st, "bad-op | - | 0")
+  match batchStep st (toks op) its with
+  | some r => r
+  | none =>
   match toks op with
   | ["reset", "H", hs] =>
     match parseList parseHdr hs with
